@@ -17,39 +17,120 @@ def HasToken (s : St) (l : L) (v : Nat) : Prop :=
 no renewal CAS is answered with an error after having been applied, there is always a renewal token
 for the CURRENT version of the record: the renewal chain never dies, so the record keeps being
 extended.  Request-lost faults (transient errors) are allowed: they are retried. -/
-theorem lease_chain_alive (c : Cfg) (s : St) (h : Reach c false false s) (g : G) (hg : s.holds g = true) :
-    ∃ r, s.lrec = some r ∧ HasToken s (c.lk g) r.ver :=
-  sorry
+def lease_chain_alive_full : Prop :=
+  ∀ (c : Cfg) (s : St), Reach c false false s → ∀ g, s.holds g = true →
+    ∃ r, s.lrec = some r ∧ HasToken s (c.lk g) r.ver
+-- The full-strength statement above is FALSE of the model (`lease_chain_alive_refuted`, the
+-- early-fire race: a timer armed by supportTimeout fires before that supportTimeout has executed
+-- future.CompareAndSwap).  What is proved is `lease_chain_alive_partial`: the same conclusion for
+-- every run in which arm + CompareAndSwap complete before the timer just armed fires (`ReachNE`),
+-- i.e. under the timing assumption that a renewal goroutine is not stalled for leaseTTL/2.
+
+/-- `lease_chain_alive` is FALSE of the model: the fault-free run `Lock.early_fire_run` ends in a state
+where goroutine 0 holds, the record is there, and there is no timer and no supportTimeout at all. -/
+theorem lease_chain_alive_refuted : ¬ lease_chain_alive_full := by
+  unfold lease_chain_alive_full
+  intro H
+  obtain ⟨s, hr, hh, _, ha, hs⟩ := early_fire_run
+  obtain ⟨r, _, ht⟩ := H c0 s hr 0 hh
+  simp [HasToken, ha, hs] at ht
+
+/-- closest true statement: `lease_chain_alive` holds for all fault-free runs WITHOUT early fires
+(`Lock.ReachNE`: no lease timer fires while the supportTimeout that armed it is still before its
+`future.CompareAndSwap`, i.e. arm + CompareAndSwap take less than L/2). -/
+theorem lease_chain_alive_partial (c : Cfg) (s : St) (h : ReachNE c s) (g : G) (hg : s.holds g = true) :
+    ∃ r, s.lrec = some r ∧ HasToken s (c.lk g) r.ver := by
+  obtain ⟨ho, _, _, hl⟩ := h.reach.inv
+  obtain ⟨r, hr, hown⟩ := ho.owner g (Or.inl hg)
+  obtain ⟨hlt, hlu⟩ := hl.rec_l r g hr hown
+  refine ⟨r, hr, ?_⟩
+  rcases h.chain.alive g r hg hr with ⟨t, ht, hv⟩ | ⟨u, hu, hv⟩
+  · exact Or.inl ⟨t, ht, hlt t ht hv, hv⟩
+  · refine Or.inr (Or.inl ⟨u, hu, hlu u hu hv, ?_⟩)
+    cases u with | mk l v pc =>
+    cases pc <;> simp_all [Sup.foot]
 
 /-- C05.reply_lost_breaks_chain (negative; known finding KF-3): with reply-lost faults a holder can
 be left with no renewal token at all — the lock is held, the record will lapse. -/
 theorem reply_lost_breaks_chain :
     ∃ (c : Cfg) (s : St), Reach c false true s ∧ s.holds 0 = true ∧ s.armed = [] ∧ s.sups = [] :=
-  sorry
+  let ⟨s, h⟩ := reply_lost_run
+  ⟨c0, s, h⟩
 
 /-- C05.renewal_dies_after_unlock: when no goroutine of Locker l holds or is inside a call, at most
 one renewal activity of l is left, it is for a version that is no longer the record's, so its CAS is
 definitive (changes nothing) and the chain ends there (arms nothing). -/
-theorem renewal_dies_after_unlock (c : Cfg) (s : St) (h : Reach c false false s) (l : L)
-    (hq : ∀ g, c.lk g = l → s.pc g = .idle ∧ s.holds g = false) :
+def renewal_dies_after_unlock_full : Prop :=
+  ∀ (c : Cfg) (s : St), Reach c false false s → ∀ l : L,
+    (∀ g, c.lk g = l → s.pc g = .idle ∧ s.holds g = false) →
     (s.armed.filter (·.l = l)).length + (s.sups.filter (·.l = l)).length ≤ 1 ∧
     (∀ t ∈ s.armed, t.l = l → ∀ r, s.lrec = some r → r.ver ≠ t.ver) ∧
-    (∀ u ∈ s.sups, u.l = l → (u.pc = .load ∨ ∃ f, u.pc = .cas f) → ∀ r, s.lrec = some r → r.ver ≠ u.ver) :=
-  sorry
+    (∀ u ∈ s.sups, u.l = l → (u.pc = .load ∨ ∃ f, u.pc = .cas f) → ∀ r, s.lrec = some r → r.ver ≠ u.ver)
+-- The first conjunct (at most ONE leftover activity) is FALSE of the untimed model
+-- (`renewal_dies_after_unlock_refuted`: each tenure may leave one fired-but-unfinished
+-- supportTimeout, and without a clock they accumulate).  Proved: `renewal_dies_after_unlock_partial`
+-- — every leftover activity of the Locker is stale, so its CAS is definitive and arms nothing.
+
+/-- `renewal_dies_after_unlock` is FALSE of the model (its first conjunct): every tenure can leave one
+fired-but-unfinished supportTimeout behind, and they accumulate (`Lock.two_stale_run`: two of them). -/
+theorem renewal_dies_after_unlock_refuted :
+    ¬ ∀ (c : Cfg) (s : St), Reach c false false s → ∀ l : L,
+        (∀ g, c.lk g = l → s.pc g = .idle ∧ s.holds g = false) →
+        (s.armed.filter (·.l = l)).length + (s.sups.filter (·.l = l)).length ≤ 1 := by
+  intro H
+  obtain ⟨s, hr, hq, ha, hs, _⟩ := two_stale_run
+  have := H c0 s hr 0 (fun g _ => hq g)
+  simp [ha, hs] at this
+
+/-- closest true statement (conjuncts 2 and 3 of `renewal_dies_after_unlock`, plus the same for a
+supportTimeout about to arm): when no goroutine of Locker l holds or is inside a call, EVERY renewal
+activity left for l is for a version that is not the record's: each remaining CAS is definitive, each
+timer still to be armed is for a dead version.  (Their number is not bounded in the untimed model.) -/
+theorem renewal_dies_after_unlock_partial (c : Cfg) (s : St) (h : Reach c false false s) (l : L)
+    (hq : ∀ g, c.lk g = l → s.pc g = .idle ∧ s.holds g = false) :
+    (∀ t ∈ s.armed, t.l = l → ∀ r, s.lrec = some r → r.ver ≠ t.ver) ∧
+    (∀ u ∈ s.sups, u.l = l → (u.pc = .load ∨ ∃ f, u.pc = .cas f) → ∀ r, s.lrec = some r → r.ver ≠ u.ver) ∧
+    (∀ u ∈ s.sups, u.l = l → ∀ f nv, u.pc = .arm f nv → ∀ r, s.lrec = some r → r.ver ≠ nv) := by
+  obtain ⟨ho, _, _, hl⟩ := h.inv
+  have key : ∀ r, s.lrec = some r → ∃ g, c.lk g ≠ l ∧
+      (∀ t ∈ s.armed, t.ver = r.ver → t.l = c.lk g) ∧ (∀ u ∈ s.sups, u.foot = some r.ver → u.l = c.lk g) := by
+    intro r hr
+    obtain ⟨g, hown, hg⟩ := ho.rec_owned r hr
+    refine ⟨g, ?_, hl.rec_l r g hr hown⟩
+    intro e
+    obtain ⟨h1, h2⟩ := hq g e
+    simp [h1, h2] at hg
+  refine ⟨?_, ?_, ?_⟩
+  · intro t ht htl r hr e
+    obtain ⟨g, hne, hkt, _⟩ := key r hr
+    exact hne ((hkt t ht e.symm).symm.trans htl)
+  · intro u hu hul hp r hr e
+    obtain ⟨g, hne, _, hku⟩ := key r hr
+    refine hne ((hku u hu ?_).symm.trans hul)
+    rcases hp with hp | ⟨f, hp⟩
+    · rw [(Sup.of_load hp).1, e]
+    · rw [(Sup.of_cas hp).1, e]
+  · intro u hu hul f nv hp r hr e
+    obtain ⟨g, hne, _, hku⟩ := key r hr
+    refine hne ((hku u hu ?_).symm.trans hul)
+    rw [(Sup.of_arm hp).1, e]
 
 /-- C05.dead_holder_released: if the holder dies (takes no more steps) and its renewal activities
 are gone, the lease assumption no longer protects the record: once it has lapsed, a parked waiter's
 return is enabled and its Create succeeds. -/
 theorem dead_holder_released (c : Cfg) (s : St) (g w : G) (v : Nat)
     (hw : s.pc w = .lWait v) (hc : s.ctxDone w = false) (hr : s.lrec = none) :
-    ∃ t₁ t₂, Step c false false s t₁ ∧ t₁.pc w = .lCreate ∧ Step c false false t₁ t₂ ∧ t₂.holds w = true :=
-  sorry
+    ∃ t₁ t₂, Step c false false s t₁ ∧ t₁.pc w = .lCreate ∧ Step c false false t₁ t₂ ∧ t₂.holds w = true := by
+  refine ⟨_, _, Step.lWaitRet s w v false (by simp) hw (Or.inr (Or.inr (Or.inl hr))), ?_, Step.lCreateOk _ w ?_ hr, ?_⟩
+  · simp [upd, hc]
+  · simp [upd, hc]
+  · simp [upd]
 
 /-- timing margin: with lease L, renewal due L/2 after the last success, each attempt late by at
 most δ, retries every ρ after a transient failure, m consecutive failures: the record is still
 valid when the (m+1)-th attempt succeeds, provided (m+1)·δ + m·ρ < L/2. -/
 theorem lease_margin (L δ ρ m t0 : Nat) (hm : (m + 1) * δ + m * ρ < L / 2) :
-    t0 + L / 2 + (m + 1) * δ + m * ρ < t0 + L :=
-  sorry
+    t0 + L / 2 + (m + 1) * δ + m * ρ < t0 + L := by
+  omega
 
 end C05
